@@ -92,6 +92,16 @@ def explore(w, report, cases, prop, harness_re, nmax, per_job_timeout, family, n
             if bad and len(keep) < len(part):
                 for cid in sorted(bad):
                     msg = next((e for e in res["errors"] if "/h/%s/" % cid in e), "")
+                    cc = next((c for c in part if c.id == cid), None)
+                    ktag = next((t for t in (cc.tags if cc else []) if t.startswith("known-if-not-type-checking:")), None)
+                    if ktag:
+                        # the case exists to catch a wrong parser should the known compile failure ever go away
+                        k = next((f for f in load_known() if f["id"] == ktag.split(":", 1)[1] and f.get("status") == "known"), None)
+                        if k is not None:
+                            short = "%s %s" % (k["id"], k["what"])
+                            if short not in report.known:
+                                report.known.append(short)
+                            continue
                     report.inconclusive.append("%s: generated code does not type-check: %s" % (cid, msg[-200:]))
                     report.cov.setdefault("packages_not_type_checking", []).append(cid)
                 if keep:
